@@ -67,15 +67,22 @@ def oracle(cfg: e3.E3Config, obs, msgs):
     if obs.outcome[0] != 'return':
         return [('run-failed', f'run_tasks did not return: {obs.outcome[1]!r}')]
     import collections
-    import re
-    seen_tokens = collections.Counter(re.findall(r'<\d+\.\d+(?:\.\d+)?>', '\n'.join(msgs)))
+    # a fragment counts as delivered when a received record starts with it (logger records) or
+    # contains it as a complete line (captured output) - a mention inside some other text, such as
+    # the "Logging error" dump of a record that could not be sent, is not a delivery
+    seen_tokens: collections.Counter = collections.Counter()
+    PREFIX = {'log': 'log', 'warn': 'warn', 'exc': 'exc', 'burst': 'b', 'print': 'out', 'iprint': 'out', 'nprint': 'out',
+              'wprint': 'out', 'eprint': 'out', 'err': 'err'}
+    first_lines = collections.Counter(m.split('\n', 1)[0] for m in msgs)
+    all_lines = collections.Counter(ln.strip() for m in msgs for ln in m.split('\n'))
     for i, pat in cfg.base.emit:
         label = spec.labels[i]
         for tok in U.emit_tokens(label, pat):
-            n = seen_tokens.get(tok, 0)
             kind = pat.split('+')[int(tok.split('.')[1].rstrip('>'))]
             if kind.startswith('burst'):
                 kind = 'burst'
+            text = PREFIX[kind] + tok
+            n = first_lines.get(text, 0) if kind in ('log', 'warn', 'exc', 'burst') else all_lines.get(text, 0)
             if n == 0:
                 out.append((f'lost:{kind}', f'fragment {tok} ({kind}, pattern {pat!r}) of node {i} was never delivered to the caller\'s labtech logger before run_tasks returned'))
             elif n > 1:
@@ -121,7 +128,8 @@ def configs(tier: str):
                     out.append(e3.E3Config(base=base, backend=be, max_workers=mw, log_mode='choice', liveness_choice=False))
     # output of failing tasks, whitespace-led output, and a burst larger than any plausible queue bound
     extra = [('print', 'log', (0,)), ('print+err', 'print+flush', (0,)), ('log+print', 'print', (1,)), ('print', 'print', (0, 1)),
-             ('iprint+flush+nprint', 'log', ()), ('nprint', 'iprint', ()), ('burst1200', 'log', ())]
+             ('iprint+flush+nprint', 'log', ()), ('nprint', 'iprint', ()), ('burst1200', 'log', ()),
+             ('exc', 'print', ()), ('log+exc', 'exc', (1,)), ('wprint', 'print+flush+eprint', ()), ('print+flush+wprint', 'eprint', ())]
     for pa, pb, faults in extra:
         for shape in shapes2[:1] if pa.startswith('burst') else shapes2:
             base = e2.Config(spec=mk_spec(shape), requested=tuple((i, False) for i in range(2)), emit=((0, pa), (1, pb)), faults=faults)
